@@ -10,7 +10,26 @@ from pathlib import Path
 
 VERIF = Path(__file__).resolve().parents[1]
 
-TECH = 'Lean 4 theorems about a hand-written executable model + differential correspondence (model driver vs real code)'
+TECH = ('Lean 4 theorems about a hand-written executable model + differential correspondence (model driver vs real code) + parts of the '
+        'source translated to Lean on every run (lean/GGen) with theorems about the generated definitions')
+
+# per property: what is regenerated from /repo on every run and which obligations are stated about it (DESIGN.md 12.8)
+SLICES = {
+    'C01': 'Regenerated every run: Trajectory.to_positions per coordinate (GGen/FormulasC01); C01Gen: = x mod 1, in [0,1), congruent.',
+    'C02': 'Regenerated every run: the whole decision of _compute_site_radius + provenance of the separations (GGen/FormulasC02); C02Gen: 2r <= separation for every returned radius, strictly disjoint when reduced, error branch iff separation < 0.51 and overlapping.',
+    'C05': 'Regenerated every run: jump_diffusivity, rates, Jumps.split forwarding, to_graph edge energy and limits (GGen/FormulasC05); C05Gen, C05Lab (label counter = sums of matrix entries, totals, rate x time = counts).',
+    'C06': 'Regenerated every run: structure of mean_squared_displacement (zero-padding to 2N, window counts, S1 recursion) as flags and the combination S1 - 2 S2 (GGen/FormulasC06), tracer_diffusivity (FormulasC14); C06Gen: combination of the model terms = definition.',
+    'C08': 'Regenerated every run: voxel_to_frac_coords, frac_coords_to_voxel, voxel_size, number of bin edges and the binning pipeline of trajectory_to_volume (GGen/FormulasC08); C08Gen: round trip, voxels per axis = floor(L/res), edge bounds.',
+    'C09': 'Regenerated every run: get_free_energy formula and the position of nan_to_num (GGen/FormulasC09); C09Gen: antitone, non-negative, nan_to_num outermost.',
+    'C10': 'Regenerated every run: move tables (GGen/Moves), node test, edge weights, peak scan, wrapped/fractional sites (GGen/FormulasC10); C10Gen, C10Peak: the scan as written returns the cheapest path over all peaks; wrapped sites inside the grid along their own axis.',
+    'C11': 'Regenerated every run: shell normalisation and density of the species-pair RDF + histogram/bin flags (GGen/FormulasC11); C11Gen: = density x shell volume, positive, additive over consecutive shells.',
+    'C12': 'Also regenerated every run: the window ceil(1/(nu dt)) and what Jumps.collective hands to Collective (GGen/FormulasC12); C12Win: smallest number of steps covering one attempt period; simulation-cell flag.',
+    'C13': 'C13Sel: naming the floating species = naming all others as fixed (whole-symbol selection, GModel.Labels, driver op selmask used by the check); C13Rigid: rigid-drift invariance.',
+    'C14': 'Regenerated every run: particle_density, mol_per_liter, tracer_diffusivity, tracer_conductivity, haven_ratio, forwarding of dimensions (GGen/FormulasC14); C14Gen: formulas and scaling laws about the generated definitions.',
+    'C17': 'Regenerated every run: re-imaging and selection of find_equivalent_positions + order of the per-operation steps (GGen/FormulasC17); C17Gen: = model re-imaging, within half a cell of the image, congruent.',
+    'C18': 'Regenerated every run: the +-1 wrap of _fractional_directions (GGen/FormulasC18); C18Gen: = model wrapHalf, in [-1/2, 1/2], shifted by -1, 0 or +1.',
+    'C19': 'Regenerated every run: bins, part selection and re-basing of _split_transitions_events, interval of Trajectory.split (GGen/FormulasC19); C19Gen: half-open parts = model selection, consecutive parts disjoint and covering, re-based times in range.',
+}
 
 # pid -> (claim text, note, design section)
 CHECKS: dict[str, tuple[str, str, str]] = {
@@ -225,7 +244,7 @@ def main():
             'evidence_file': f'evidence/{pid}.json',
             'replay_cmd_template': f'./check {pid} replay {{path}}',
             'engine': 'lean-model+correspondence',
-            'level_claimed': {'category': 'proof', 'text': text, 'design_ref': f'DESIGN.md section {ref}'},
+            'level_claimed': {'category': 'proof', 'text': text + (' ' + SLICES[pid] if pid in SLICES else ''), 'design_ref': f'DESIGN.md section {ref} and 12.3 / 12.8'},
             'level_note': note,
             'technique': TECH,
         })
